@@ -96,6 +96,41 @@ class Gen:
         raise Unsupported("statement %r" % (s,))
 
 
+def route_ctor():
+    """`Route::Route(path_str, method_handler)` (members path / search_path initialised from path_str, then the text from the
+    first ':' on erased from search_path) and `Route::has_parameters`"""
+    t = R.strip_comments(R.text_of(REL))
+    m = re.search(r"Route\s*\(\s*std::string\s+const&\s+path_str\s*,\s*MethodHandlers_value_type\s+method_handler\s*\)\s*:\s*path\s*\(\s*path_str\s*\)"
+                  r"\s*,\s*search_path\s*\(\s*path_str\s*\)\s*,\s*method_handlers\s*\{\s*method_handler\s*\}\s*\{", t)
+    if not m:
+        raise Unsupported("Route constructor: signature / member initialisers not as expected")
+    i = j = m.end() - 1
+    d = 0
+    while j < len(t):
+        if t[j] == "{":
+            d += 1
+        elif t[j] == "}":
+            d -= 1
+            if d == 0:
+                break
+        j += 1
+    st = E.parse_body(t[i:j + 1])
+    if not (len(st) == 2 and st[0][0] == "ldecl" and st[0][1] == "auto"
+            and st[0][3][0] == "call" and st[0][3][1] == ("member", ("id", "search_path"), "find") and len(st[0][3][2]) == 1 and st[0][3][2][0][0] == "char"
+            and st[1] == ("if", ("cmp", "!=", ("id", st[0][2]), ("id", "std::string::npos")),
+                          ("expr", ("call", ("member", ("id", "search_path"), "erase"), [("id", st[0][2])])), None)):
+        raise Unsupported("Route constructor body %r" % (st,))
+    v, ch = st[0][2], st[0][3][2][0][1]
+    out = ("/-- `Route::search_path` as the constructor leaves it: `erase(pos)` removes everything from `pos` on -/\n"
+           "def GenRouter.searchPath (path_str : Bytes) : Bytes :=\n  let search_path : Bytes := path_str; let %s : Option Nat := findByte %d search_path; "
+           "match %s with | some %s => search_path.take %s | none => search_path\n\n" % (v, ch, v, v, v))
+    hp = E.parse_body(R.strip_comments(E.fn_body(REL, r"\bbool\s+has_parameters\s*\(\s*\)\s*const", "request_router")))
+    if hp != [("return", ("cmp", "!=", ("call", ("member", ("id", "path"), "size"), []), ("call", ("member", ("id", "search_path"), "size"), [])))]:
+        raise Unsupported("has_parameters %r" % (hp,))
+    out += "def GenRouter.hasParameters (path search_path : Bytes) : Bool :=\n  path.length != search_path.length\n"
+    return out
+
+
 def translate_router():
     b = R.strip_comments(E.fn_body(REL, SIG, "request_router")).replace("->", ".")
     b = re.sub(r"\b(request_uri|tx_response)\s+(\w+)\s*\(", r"auto \2(", b)
@@ -106,6 +141,7 @@ def translate_router():
                "inductive GenRouter.Out where\n  | status (code : String) (headers : List (String × Bytes))\n"
                "  | handler (id : Nat) (params : Router.Params)\nderiving Repr, DecidableEq\n")
     out.append("def GenRouter.handleRequest (found : Option (Router.Route × Router.Params)) (method : Bytes) (chal : Nat → Bytes) : GenRouter.Out :=\n  %s\n" % term)
+    out.append(route_ctor())
     out.append("end Via\n")
     return "\n".join(out)
 
